@@ -6,6 +6,9 @@ import Infretis.Lemmas.PermStair
 import Infretis.Lemmas.PermPipe
 import Infretis.Lemmas.PermFinal
 import Infretis.Lemmas.PermEmbed
+import Infretis.Lemmas.PermMain
+import Infretis.Lemmas.PermFull
+import Mathlib.Tactic.IntervalCases
 import Mathlib.Tactic.NormNum
 /-!
 # C02 — swap probabilities equal the exact permanent ratios
@@ -227,5 +230,93 @@ example : wLocked.length = locksLocked.length ∧ locksLocked[2]? = some true
     ∧ entry (probMatrix wLocked locksLocked) 3 2 = 0
     ∧ rank locksLocked 3 = 2 ∧ rank locksLocked 4 = 3
     ∧ entry (probMatrix wLocked locksLocked) 3 4 = 1 / 2 := by decide +kernel
+
+
+/-! ## 7. The pipeline: `inf_retis` returns the embedded permanent ratios
+
+`Reach o N cnts` (Lemmas/PermReach.lean) is the property's family on the idle block `N`:
+`o ≤ 1` minus rows `(w,0,…,0)`, `w > 0`, then plus rows that vanish on the minus column, are
+positive on the next `cnts[k]` columns and zero after — any positive weights, any staircase,
+any order of the plus rows.  `FullReach W locks cnts` (Lemmas/PermFull.lean) is the same for
+the full state matrix with its ghost; every lock subset of it gives such an idle block. -/
+
+/-- **The pipeline theorem.** For every weight matrix and lock vector whose idle block is in the
+    reachable family and has a perfect matching (`permC ≠ 0`), and such that no block is sent to
+    the Monte-Carlo routine (non-row-constant blocks have at most 12 rows), the whole of
+    `inf_retis` — drop locked, the two argsorts, equal-weight test, `find_blocks`, the
+    single / `quick_prob` / `permanent_prob`+Glynn branches, un-sort, the two `allclose`
+    asserts, re-insertion of zeros — returns exactly `probMatrix W locks`: the permanent ratios
+    on the idle block, zero on busy rows and columns.  No exception is raised. -/
+theorem infRetis_eq_spec (off : Nat) (W : Mat) (locks : List Bool) (cnts : List Nat)
+    (hne : idle W locks ≠ [])
+    (hR : Reach (prepare off W locks).offset (idle W locks) cnts)
+    (hP : permC (idle W locks) ≠ 0)
+    (hsmall : ∀ bs, findBlocks (prepare off W locks).sorted (prepare off W locks).offset = .list bs →
+      ∀ b ∈ bs, branchOf (subBlock (prepare off W locks).sorted b.1 b.2.1 b.2.2) ≠ .random) :
+    infRetis W locks off = .ok (probMatrix W locks) :=
+  infRetis_eq_probMatrix off W locks cnts hne hR hP hsmall
+
+/-- the same without the Monte-Carlo proviso when at most 12 ensembles are idle -/
+theorem infRetis_eq_spec_small (off : Nat) (W : Mat) (locks : List Bool) (cnts : List Nat)
+    (hne : idle W locks ≠ [])
+    (hR : Reach (prepare off W locks).offset (idle W locks) cnts)
+    (hP : permC (idle W locks) ≠ 0) (h12 : (idle W locks).length ≤ 12) :
+    infRetis W locks off = .ok (probMatrix W locks) :=
+  infRetis_eq_probMatrix_small off W locks cnts hne hR hP h12
+
+/-- **Any set of busy ensembles**: a full reachable state (minus row, staircase plus rows with
+    arbitrary positive weights in any slot order, ghost locked) with any lock vector gives an
+    idle block of the family. -/
+theorem reach_of_full (W : Mat) (locks : List Bool) (cnts : List Nat)
+    (hF : FullReach W locks cnts) : ∃ cnts', Reach (prepare 1 W locks).offset (idle W locks) cnts' :=
+  reach_idle_of_full 1 W locks cnts rfl hF
+
+/-- the full-state form of the pipeline theorem (up to 12 idle ensembles) -/
+theorem infRetis_eq_spec_full (W : Mat) (locks : List Bool) (cnts : List Nat)
+    (hF : FullReach W locks cnts) (hne : idle W locks ≠ [])
+    (hP : permC (idle W locks) ≠ 0) (h12 : (idle W locks).length ≤ 12) :
+    infRetis W locks 1 = .ok (probMatrix W locks) := by
+  obtain ⟨cnts', hR⟩ := reach_of_full W locks cnts hF
+  exact infRetis_eq_spec_small 1 W locks cnts' hne hR hP h12
+
+/-- the locked multi-worker state is a full reachable state -/
+example : FullReach wLocked locksLocked [3, 2, 4, 4] := fullReach_example
+
+/-- … so `inf_retis` returns the specification on it (equal-weights branch) -/
+example : infRetis wLocked locksLocked 1 = .ok (probMatrix wLocked locksLocked) :=
+  infRetis_eq_spec_full wLocked locksLocked [3, 2, 4, 4] fullReach_example
+    (by decide +kernel) (by decide +kernel) (by decide +kernel)
+
+theorem idle_wWire : idle wWire locksWire
+    = [[1,0,0,0,0],[0,2,0,0,0],[0,1000,1000,1000,1000],[0,17,17,17,0],[0,3,5,1,7]] := by
+  decide +kernel
+
+theorem offset_wWire : (prepare 1 wWire locksWire).offset = 1 := by decide +kernel
+
+/-- the wire-fencing-like state is in the family (slots not sorted, free weights) -/
+theorem reach_wWire :
+    Reach (prepare 1 wWire locksWire).offset (idle wWire locksWire) [1, 4, 3, 4] := by
+  rw [offset_wWire, idle_wWire]
+  refine ⟨by decide, by decide, ?_, ?_⟩
+  · intro _
+    refine ⟨by decide, by decide +kernel, ?_⟩
+    intro c h1 h2
+    simp only [List.length_cons, List.length_nil] at h2
+    interval_cases c <;> decide +kernel
+  · intro k hk
+    simp only [List.length_cons, List.length_nil] at hk
+    interval_cases k
+    all_goals
+      refine ⟨by decide, by decide, ?_, ?_, ?_⟩
+      all_goals
+        intro c h1
+        try intro h2
+        simp only [List.length_cons, List.length_nil, List.getD_cons_zero, List.getD_cons_succ] at *
+        interval_cases c <;> decide +kernel
+
+/-- … so `inf_retis` returns the specification on it (blocks: single, single, Glynn 3×3) -/
+example : infRetis wWire locksWire 1 = .ok (probMatrix wWire locksWire) :=
+  infRetis_eq_spec_small 1 wWire locksWire [1, 4, 3, 4] (by decide +kernel) reach_wWire
+    (by decide +kernel) (by decide +kernel)
 
 end Infretis.C02
